@@ -17,12 +17,17 @@ Others == { Pkt(0, "ORB_UPPER", "RET", "uusdc", 9, "NONE"), Pkt(0, "U", "RET", "
             Pkt(0, "ORB", "RET", "uusdc", 9, "NONE"), Pkt(0, "ORB", "SRCNATIVE", "uatom", 9, "NONE"),
             Pkt(1, "ORB_UPPER", "SRCNATIVE", "uatom", 9, "NONE"), Pkt(0, "INVALID", "RET", "ustake", 9, "NONE"),
             Pkt(0, "DUST", "RET", "ustake", 9, "NONE") }
+\* memos without a usable "orbiter" root key, addressed to the orbiter account: must be refused, never
+\* handed to plain ICS-20 (which would credit the orbiter account)
+TplI == Xfer(0, "ustake", 9, FwINT("U"), <<>>)
+NoOrbiterKey == { [TplI EXCEPT !.mk = "MUT", !.aid = a, !.op = m] : a \in {"orbiter"}, m \in {"null", "absent", "rename", "string"} }
+                \cup { [TplI EXCEPT !.mk = "MUT", !.aid = "root", !.op = m] : m \in {"emptyobj", "emptyarr", "null"} }
 Deposits == { DepositIn("uusdc", 5), DepositIn("ustake", 5) }
 Admins == { PauseProtocol("AUTH", "CCTP"), UnpauseProtocol("AUTH", "CCTP"), PauseCC("AUTH", "HYP", <<Cp1>>),
             PauseAction("AUTH", "FEE"), UnpauseAction("AUTH", "FEE"), PauseProtocol("M", "INT") }
 Envs == { EnvIn("ftfPause", ""), EnvIn("ftfUnpause", ""), EnvIn("block", "F1"), EnvIn("block", "U") }
 
-MCAlphabet == Transfers \cup BigTransfer \cup Others \cup Deposits \cup Admins \cup Envs \cup {ReimportIn}
+MCAlphabet == Transfers \cup BigTransfer \cup Others \cup NoOrbiterKey \cup Deposits \cup Admins \cup Envs \cup {ReimportIn}
 
 StepProps == [][ /\ Prop_C01(last') /\ Prop_C02(last') /\ Prop_C03(last') /\ Prop_C04(last') /\ Prop_C05(last')
                  /\ Prop_C08(last') /\ Prop_C09(last') /\ Prop_C10(last') /\ Prop_C11(last') /\ Prop_C12(last')
